@@ -24,6 +24,7 @@ class Recorder:
     def __init__(self, max_samples=6):
         self.evaluations = 0
         self.keys = set()
+        self.extra_distinct = 0
         self.failures = {}
         self.fail_counts = {}
         self.samples = []
@@ -68,6 +69,20 @@ class Recorder:
                 }
             )
 
+    def book_summary(self, n_evals, n_distinct, failures, sample=None):
+        """pre-aggregated results of a worker: failures = {case: (clause, detail, inputs, count)}; the scenarios of an
+        exhaustive enumeration are distinct by construction, so only their number is transferred."""
+        self.evaluations += n_evals
+        if self._block is not None:
+            self._block["evaluations"] += n_evals
+        self.extra_distinct += n_distinct
+        for case, (clause, detail, inputs, count) in failures.items():
+            self.fail_counts[case] = self.fail_counts.get(case, 0) + count
+            if case not in self.failures:
+                self.failures[case] = {"case": case, "clause": clause, "detail": detail, "inputs": inputs}
+        if sample is not None and len(self.samples) < self.max_samples:
+            self.samples.append(sample)
+
     def result(self):
         fails = []
         for case in sorted(self.failures):
@@ -76,7 +91,7 @@ class Recorder:
             fails.append(f)
         return {
             "evaluations": int(self.evaluations),
-            "distinct_nontrivial": int(len(self.keys)),
+            "distinct_nontrivial": int(len(self.keys) + self.extra_distinct),
             "failures": fails,
             "bounded": self.blocks,
             "samples": self.samples,
